@@ -483,6 +483,21 @@ func NodesNeeded(cpuReq, memReq, cpuSize, memSize *big.Int, threshold int) (int,
 	return int(a.Int64()), true
 }
 
+// WithinFloatResolution reports whether n nodes miss sufficiency only by an amount float64 cannot resolve:
+// 100*req exceeds t*n*size by a factor of at most 1+1e-12, for each resource.
+func WithinFloatResolution(cpuReq, memReq, cpuSize, memSize *big.Int, threshold, n int) bool {
+	if n <= 0 {
+		return false
+	}
+	ok := func(req, size *big.Int) bool {
+		lhs := new(big.Rat).SetInt(new(big.Int).Mul(req, big.NewInt(100)))
+		rhs := new(big.Rat).SetInt(new(big.Int).Mul(size, big.NewInt(int64(threshold)*int64(n))))
+		rhs.Mul(rhs, new(big.Rat).SetFrac(big.NewInt(1000000000001), big.NewInt(1000000000000)))
+		return lhs.Cmp(rhs) <= 0
+	}
+	return ok(cpuReq, cpuSize) && ok(memReq, memSize)
+}
+
 // Decide computes the plan.
 func Decide(in Input) *Plan {
 	gv := in.View
